@@ -284,6 +284,8 @@ def jobs(tier, seed):
     js.append(_job("interior_2v2r_thirds", 2, 2, (-3, -1, 0, 1, 3) if tier == "thorough" else (-3, -1, 1, 3), (-3, 0, 1), (-1, 0, 1), "solve_lp_interior", describe="2 variables, 2 rows with entries 3/-3 for the interior-point solver: parallel contradictory rows scaled by 3 (infeasible / unbounded inputs whose iterates diverge fastest)"))
     if tier == "thorough":
         js.append(_job("simplex_2v3r_thirds", 2, 3, (-3, 0, 2, 3), (-2, 0, 6), (-3, -1, 2), "solve_lp"))
+    if tier == "thorough":
+        js.append(_job("simplex_2v4r_ternary", 2, 4, T3, T3, T3, "solve_lp"))
     total33 = _size(3, 3, T3, T3, T3)
     if tier == "thorough":
         js.append(_job("simplex_3v3r_ternary", 3, 3, T3, T3, T3, "solve_lp"))
